@@ -143,6 +143,8 @@ type Reader struct {
 	ended     bool
 	Closed    bool
 	ZeroReads int
+	// ReadsAfterClose counts Reads issued after Close (they fail)
+	ReadsAfterClose int
 	OnRead    func() // optional scheduler point
 }
 
@@ -159,6 +161,12 @@ func (r *Reader) Read(p []byte) (int, error) {
 	r.Reads++
 	if r.OnRead != nil {
 		r.OnRead()
+	}
+	if r.Closed {
+		// as net/http's request bodies: closing is final (HTTP/1: ErrBodyReadAfterClose,
+		// HTTP/2: "http2: request body closed due to handler exiting")
+		r.ReadsAfterClose++
+		return 0, http.ErrBodyReadAfterClose
 	}
 	if r.pos >= len(r.S.Data) {
 		if r.ended {
